@@ -442,3 +442,47 @@ func SweepCase(k int, faces []corpus.FaceRef) *Case {
 	}
 	return c
 }
+
+// ---- mark trains: a letter followed by 32..129 copies of one combining mark. Fixed
+// scratch arrays and "at most 32 marks" shortcuts in the normalizer and the complex
+// shapers only show beyond their bound.
+
+var trainLengths = []int{31, 32, 33, 34, 65, 129}
+
+const trainVariants = 6 * 2 * 2 * 2 // length x direction x api x face
+
+// TrainSize is the number of mark-train cases.
+func TrainSize(faces []corpus.FaceRef) int {
+	sweepInit(faces)
+	return len(sweepItems) * trainVariants
+}
+
+// TrainCase returns mark-train case k.
+func TrainCase(k int, faces []corpus.FaceRef) *Case {
+	sweepInit(faces)
+	it := sweepItems[k/trainVariants]
+	v := k % trainVariants
+	ln, v := trainLengths[v%6], v/6
+	dir, v := v%2, v/2
+	api, v := v%2, v/2
+	facesel := v % 2
+	a := gen.Alphabets[it.alphabet]
+	text := []rune{a.Letters[(k/trainVariants)%len(a.Letters)]}
+	for i := 0; i < ln; i++ {
+		text = append(text, it.mark)
+	}
+	text = append(text, a.Letters[(k/trainVariants+1)%len(a.Letters)])
+	c := &Case{Text: text, RunStart: 0, RunEnd: len(text), Dir: uint8(allDirs[dir]), Size: 16 << 6, Source: "mark-train"}
+	c.Script = uint32(guessScript(text))
+	c.Face = faces[0].String()
+	if fs := sweepFaces[it.alphabet]; facesel == 0 && len(fs) > 0 {
+		c.Face = fs[0]
+	} else if ref, ok := corpus.ParseRef("sys/DejaVuSans.ttf#0"); ok {
+		c.Face = ref.String()
+	}
+	if api > 0 {
+		c.Buffer = true
+		c.Flags = 3
+	}
+	return c
+}
